@@ -27,6 +27,14 @@
 (*   Discovery(p,add) Manager.UpdateNodePool                               *)
 (*   Disconnect(p)    libp2p connectedness event NotConnected              *)
 (*   Age(h)           time passes: the pool is now older than the timeout  *)
+(*   ExpireAll        time passes: every cool-down (in every pool) elapses *)
+(*   RequestWait(h)   Manager.Peer with a live context that finds nobody   *)
+(*                    and BLOCKS (on the hash pool's and the node pool's   *)
+(*                    next()); every later action that makes a peer        *)
+(*                    available wakes the waiter within the same step      *)
+(*                    (Settle): it re-checks the peer (removeIfUnreachable *)
+(*                    / removeIfBlacklisted) and returns it or goes on     *)
+(*                    waiting                                              *)
 (*   Gc               one iteration of Manager.GC (cleanUp + blacklist)    *)
 (*                                                                         *)
 (* Switches for the code variant:                                          *)
@@ -34,6 +42,11 @@
 (*                    copies a confirmed pool's peers to the node pool     *)
 (*   CheckOnHandout   Peer() drops a black-listed peer taken from the      *)
 (*                    node pool instead of returning it                    *)
+(*   CheckOnWake      a peer delivered to a BLOCKED Peer() by the hash     *)
+(*                    pool's next() is re-checked (removeIfUnreachable);   *)
+(*                    FALSE = hypothetical variant without that check: a   *)
+(*                    waiter woken by a cool-down expiry is handed a peer  *)
+(*                    that was black-listed meanwhile (directed witness)   *)
 (* Both FALSE = the tree before `fix: ... blacklisted`: BlacklistedNever-  *)
 (* Offered fails (peer black-listed while it sits in an unconfirmed hash   *)
 (* pool; the header arrives; the peer is copied to the node pool and       *)
@@ -49,8 +62,10 @@ CONSTANTS
   MsgHeights,       \* heights a notification may claim
   StoredPools,      \* storedPoolsAmount (code: 10)
   MaxReqs,          \* outstanding requests (bound)
+  MaxWaiters,       \* blocked Peer() calls (bound; 0 = RequestWait disabled)
+  Expiry,           \* BOOLEAN: cool-downs can elapse (ExpireAll)
   EnableBlackListing,
-  FilterOnPromote, CheckOnHandout
+  FilterOnPromote, CheckOnHandout, CheckOnWake
 
 None == "-"
 Hashes == {Chain[i] : i \in DOMAIN Chain} \cup FakeHashes
@@ -62,13 +77,14 @@ VARIABLES
   blocked, blHashes, initialHeight, storeFrom,
   head,          \* number of headers delivered so far
   reqs,          \* set of [peer, hash, src] with src \in {"hash", "nodes"}
+  waiting,       \* chain indices i with a Peer(Chain[i]) call blocked in its select
   last,          \* the last call and its result (binding)
   discovered,    \* GHOST: peers discovery has reported (and not withdrawn)
   confirmed,     \* GHOST: peers that announced a data hash which a header (or a request) confirmed
   viol           \* GHOST: monitors that fired
 
-vars == <<pools, nodes, blocked, blHashes, initialHeight, storeFrom, head, reqs, last, discovered, confirmed, viol>>
-view == <<pools, nodes, blocked, blHashes, initialHeight, storeFrom, head, reqs, discovered, confirmed, viol>>
+vars == <<pools, nodes, blocked, blHashes, initialHeight, storeFrom, head, reqs, waiting, last, discovered, confirmed, viol>>
+view == <<pools, nodes, blocked, blHashes, initialHeight, storeFrom, head, reqs, waiting, discovered, confirmed, viol>>
 
 NoPool == [exists |-> FALSE, validated |-> FALSE, height |-> 0, stale |-> FALSE, st |-> [p \in Peers |-> "none"]]
 LiveIn(st)   == {p \in Peers : st[p] # "none"}          \* pool.peers(), pool.has
@@ -76,13 +92,16 @@ ActiveIn(st) == {p \in Peers : st[p] = "active"}
 AddAll(st, S) == [p \in Peers |-> IF p \in S /\ st[p] = "none" THEN "active" ELSE st[p]]   \* pool.add(S...)
 Remove(st, S) == [p \in Peers |-> IF p \in S THEN "none" ELSE st[p]]                      \* pool.remove(S...)
 
-Step(act, arg, ret) == last' = [act |-> act, arg |-> arg, ret |-> ret]
+\* `woke`: what blocked Peer() calls returned during this step (set of [hash, peer])
+StepW(act, arg, ret, woke) == last' = [act |-> act, arg |-> arg, ret |-> ret, woke |-> woke]
+Step(act, arg, ret) == StepW(act, arg, ret, {})
 
 Init ==
   /\ pools = [h \in Hashes |-> NoPool]
   /\ nodes = [p \in Peers |-> "none"]
   /\ blocked = {} /\ blHashes = {} /\ initialHeight = 0 /\ storeFrom = 0 /\ head = 0 /\ reqs = {}
-  /\ last = [act |-> "init", arg |-> None, ret |-> None]
+  /\ waiting = {}
+  /\ last = [act |-> "init", arg |-> None, ret |-> None, woke |-> {}]
   /\ discovered = {} /\ confirmed = {} /\ viol = {}
 
 \* getOrCreatePool(h, ht) on a pools function
@@ -110,7 +129,7 @@ Notify(p, h, ht) ==
           /\ nodes' = IF ps2[h].validated THEN AddAll(nodes, {p}) ELSE nodes
           /\ confirmed' = IF ps2[h].validated THEN confirmed \cup {p} ELSE confirmed
           /\ Step("notify", [peer |-> p, hash |-> h, height |-> ht], "ignore")
-  /\ UNCHANGED <<blocked, blHashes, initialHeight, storeFrom, head, reqs, discovered, viol>>
+  /\ UNCHANGED <<waiting, blocked, blHashes, initialHeight, storeFrom, head, reqs, discovered, viol>>
 
 \* ---- subscribeHeader --------------------------------------------------------
 Max(a, b) == IF a > b THEN a ELSE b
@@ -123,7 +142,7 @@ Header ==
      /\ storeFrom' = IF ht > StoredPools THEN ht - StoredPools ELSE 0
      /\ head' = head + 1
      /\ Step("header", [hash |-> Chain[head + 1], height |-> ht], None)
-  /\ UNCHANGED <<blocked, blHashes, reqs, discovered, viol>>
+  /\ UNCHANGED <<waiting, blocked, blHashes, reqs, discovered, viol>>
 
 \* ---- Manager.Peer -----------------------------------------------------------
 \* Only hashes of real headers are requested (the getter has the header), with the header's height.
@@ -160,7 +179,54 @@ Request(i) ==
                  /\ nodes' = Remove(nd, bad)
                  /\ UNCHANGED <<reqs, viol>>
                  /\ Step("request", [hash |-> h, height |-> HeightOfIdx(i)], None)   \* would wait
-  /\ UNCHANGED <<blocked, blHashes, initialHeight, storeFrom, head, discovered>>
+  /\ UNCHANGED <<waiting, blocked, blHashes, initialHeight, storeFrom, head, discovered>>
+
+\* Manager.Peer with a live context when nobody is available: same effects as the last branch of Request,
+\* then the call blocks in `select { <-p.next(ctx), <-m.nodes.next(ctx), <-ctx.Done() }`.
+RequestWait(i) ==
+  /\ i \notin waiting /\ Cardinality(waiting) < MaxWaiters /\ Cardinality(reqs) + Cardinality(waiting) < MaxReqs
+  /\ LET h  == Chain[i]
+         v  == Validated(pools, nodes, h, HeightOfIdx(i))
+         ps == v[1]
+         nd == v[2]
+         unreachable == {q \in ActiveIn(ps[h].st) : q \in blocked \/ nd[q] = "none"}
+         bad == IF CheckOnHandout THEN ActiveIn(nd) \cap blocked ELSE {}
+     IN
+     /\ ActiveIn(ps[h].st) \ unreachable = {} /\ ActiveIn(nd) \ bad = {}
+     /\ confirmed' = confirmed \cup v[3]
+     /\ pools' = [ps EXCEPT ![h].st = Remove(@, unreachable)]
+     /\ nodes' = Remove(nd, bad)
+     /\ waiting' = waiting \cup {i}
+     /\ Step("request_wait", [hash |-> h, height |-> HeightOfIdx(i)], None)
+  /\ UNCHANGED <<blocked, blHashes, initialHeight, storeFrom, head, reqs, discovered, viol>>
+
+\* A blocked Peer() is woken as soon as its hash pool or the node pool has an active peer (the goroutines inside
+\* next() react at once: Wake is URGENT, see Next).  The peer that comes out of the hash pool is re-checked
+\* (removeIfUnreachable), the one out of the node pool too (removeIfBlacklisted); a peer that fails the check is
+\* removed and Peer() starts again -- it returns a peer in a following Wake step or blocks again.
+Wakeable(i) == ActiveIn(pools[Chain[i]].st) # {} \/ ActiveIn(nodes) # {}
+Wake(i) ==
+  /\ i \in waiting /\ Wakeable(i)
+  /\ LET h == Chain[i]
+         deliver(q, src) ==
+           /\ reqs' = reqs \cup {[peer |-> q, hash |-> h, src |-> src]}
+           /\ waiting' = waiting \ {i}
+           /\ viol' = IF EnableBlackListing /\ q \in blocked THEN viol \cup {"blacklisted_offered"} ELSE viol
+           /\ StepW("wake", [hash |-> h, height |-> HeightOfIdx(i)], q, {[hash |-> h, peer |-> q]})
+     IN
+     \/ \E q \in ActiveIn(pools[h].st) :          \* case peerID = <-p.next(ctx)
+          IF CheckOnWake /\ (q \in blocked \/ nodes[q] = "none")
+            THEN /\ pools' = [pools EXCEPT ![h].st = Remove(@, {q})]
+                 /\ Step("wake", [hash |-> h, height |-> HeightOfIdx(i)], None)
+                 /\ UNCHANGED <<nodes, reqs, waiting, viol>>
+            ELSE deliver(q, "hash") /\ UNCHANGED <<pools, nodes>>
+     \/ \E q \in ActiveIn(nodes) :                \* case peerID = <-m.nodes.next(ctx)
+          IF CheckOnHandout /\ q \in blocked
+            THEN /\ nodes' = Remove(nodes, {q})
+                 /\ Step("wake", [hash |-> h, height |-> HeightOfIdx(i)], None)
+                 /\ UNCHANGED <<pools, reqs, waiting, viol>>
+            ELSE deliver(q, "nodes") /\ UNCHANGED <<pools, nodes>>
+  /\ UNCHANGED <<blocked, blHashes, initialHeight, storeFrom, head, discovered, confirmed>>
 
 \* ---- DoneFunc ---------------------------------------------------------------
 Cool(st, p) == IF st[p] = "active" THEN [st EXCEPT ![p] = "cooldown"] ELSE st     \* pool.putOnCooldown
@@ -177,7 +243,7 @@ Done(r, res) ==
               THEN nodes' = Remove(nodes, {r.peer}) /\ blocked' = blocked \cup {r.peer} /\ UNCHANGED pools
               ELSE UNCHANGED <<pools, nodes, blocked>>
   /\ Step("done", [peer |-> r.peer, hash |-> r.hash, src |-> r.src, result |-> res], None)
-  /\ UNCHANGED <<blHashes, initialHeight, storeFrom, head, discovered, confirmed, viol>>
+  /\ UNCHANGED <<waiting, blHashes, initialHeight, storeFrom, head, discovered, confirmed, viol>>
 
 \* ---- UpdateNodePool ---------------------------------------------------------
 Discovery(p, added) ==
@@ -186,20 +252,31 @@ Discovery(p, added) ==
             ELSE nodes' = AddAll(nodes, {p}) /\ discovered' = discovered \cup {p}
        ELSE nodes' = Remove(nodes, {p}) /\ discovered' = discovered \ {p}
   /\ Step("discovery", [peer |-> p, added |-> added], None)
-  /\ UNCHANGED <<pools, blocked, blHashes, initialHeight, storeFrom, head, reqs, confirmed, viol>>
+  /\ UNCHANGED <<waiting, pools, blocked, blHashes, initialHeight, storeFrom, head, reqs, confirmed, viol>>
 
 \* ---- subscribeDisconnectedPeers --------------------------------------------
 Disconnect(p) ==
   /\ nodes' = Remove(nodes, {p})
   /\ Step("disconnect", p, None)
-  /\ UNCHANGED <<pools, blocked, blHashes, initialHeight, storeFrom, head, reqs, discovered, confirmed, viol>>
+  /\ UNCHANGED <<waiting, pools, blocked, blHashes, initialHeight, storeFrom, head, reqs, discovered, confirmed, viol>>
 
 \* ---- time -------------------------------------------------------------------
 Age(h) ==
   /\ pools[h].exists /\ ~pools[h].stale
   /\ pools' = [pools EXCEPT ![h].stale = TRUE]
   /\ Step("age", h, None)
-  /\ UNCHANGED <<nodes, blocked, blHashes, initialHeight, storeFrom, head, reqs, discovered, confirmed, viol>>
+  /\ UNCHANGED <<waiting, nodes, blocked, blHashes, initialHeight, storeFrom, head, reqs, discovered, confirmed, viol>>
+
+\* every cool-down that is running elapses (the replay advances the mock clock by PeerCooldown): each pool's timed
+\* queue releases all its entries, a peer whose status is still cooldown becomes active again
+Warm(st) == [p \in Peers |-> IF st[p] = "cooldown" THEN "active" ELSE st[p]]
+ExpireAll ==
+  /\ Expiry
+  /\ (\E p \in Peers : nodes[p] = "cooldown") \/ (\E h \in Hashes, p \in Peers : pools[h].st[p] = "cooldown")
+  /\ pools' = [h \in Hashes |-> [pools[h] EXCEPT !.st = Warm(@)]]
+  /\ nodes' = Warm(nodes)
+  /\ Step("expire", None, None)
+  /\ UNCHANGED <<waiting, blocked, blHashes, initialHeight, storeFrom, head, reqs, discovered, confirmed, viol>>
 
 \* ---- GC: cleanUp + blacklistPeers -------------------------------------------
 Outdated(h)    == pools[h].exists /\ pools[h].validated /\ pools[h].height < storeFrom
@@ -216,9 +293,9 @@ Gc ==
                  THEN nodes' = Remove(nodes, toBlack) /\ blocked' = blocked \cup toBlack
                  ELSE UNCHANGED <<nodes, blocked>>
             /\ Step("gc", None, toBlack)
-  /\ UNCHANGED <<initialHeight, storeFrom, head, reqs, discovered, confirmed, viol>>
+  /\ UNCHANGED <<waiting, initialHeight, storeFrom, head, reqs, discovered, confirmed, viol>>
 
-Next ==
+Normal ==
   \/ \E p \in Peers, h \in Hashes, ht \in MsgHeights : Notify(p, h, ht)
   \/ Header
   \/ \E i \in 1..head : Request(i)            \* only hashes whose header has been seen are requested
@@ -227,8 +304,16 @@ Next ==
   \/ \E p \in Peers : Disconnect(p)
   \/ \E h \in Hashes : Age(h)
   \/ Gc
+  \/ ExpireAll
+  \/ \E i \in 1..head : RequestWait(i)
+
+\* a waiter that can be served is served before anything else happens
+Next == IF \E i \in waiting : Wakeable(i) THEN \E i \in waiting : Wake(i) ELSE Normal
 
 Spec == Init /\ [][Next]_vars
+\* without blocked calls (MaxWaiters = 0) Next = Normal; as a disjunction of named actions it lets TLC's simulator
+\* print only the successors of the action it picked (ManagerSim.cfg)
+SpecNoWait == Init /\ [][Normal]_vars
 
 -----------------------------------------------------------------------------
 (* INVARIANTS *)
@@ -268,8 +353,8 @@ GcRules ==
 -----------------------------------------------------------------------------
 (* OUTPUT for the binding *)
 Proj == [pools |-> pools, nodes |-> nodes, blocked |-> blocked, blHashes |-> blHashes,
-         initialHeight |-> initialHeight, storeFrom |-> storeFrom, head |-> head, reqs |-> reqs]
+         initialHeight |-> initialHeight, storeFrom |-> storeFrom, head |-> head, reqs |-> reqs, waiting |-> waiting]
 ProjNext == [pools |-> pools', nodes |-> nodes', blocked |-> blocked', blHashes |-> blHashes',
-         initialHeight |-> initialHeight', storeFrom |-> storeFrom', head |-> head', reqs |-> reqs']
+         initialHeight |-> initialHeight', storeFrom |-> storeFrom', head |-> head', reqs |-> reqs', waiting |-> waiting']
 EdgeOut == PrintT(<<"EDGE", ToJson([s |-> Proj, a |-> last', t |-> ProjNext])>>)
 =============================================================================
